@@ -394,6 +394,8 @@ def run(ctx) -> None:
     P = ctx.P
     RCL = ctx.rule("C06/cursor-loops-advance", "in every `while` loop whose test reads only local names, len() and constants (a decoder's cursor loop, a count-down), each way round -- the end of the body and every `continue` -- comes after an assignment to, or a mutation of, a name the test reads", floor=3)
     cursor_loops_advance(ctx, RCL, P)
+    RLB = ctx.rule("C06/explicit-locks-released-on-every-path", "a lock taken with an explicit acquire() in the delay queue is released on every way out of the method, early returns and exceptions included (instances shared with C17): a leaked non-re-entrant lock blocks the next put() of the reader thread for ever, and close() / join() behind it", floor=3)
+    ctx.borrow("c17", "C17/lock-balanced", RLB)
     RO = ctx.rule("C06/lock-order", "the graph 'lock B may be acquired while lock A is held' (through resolved calls) is acyclic", floor=1)
     RW = ctx.rule("C06/no-wait-under-needed-lock", "no join() / blocking wait is executed while holding a lock that the joined thread's body, or the waker of that wait, acquires", floor=2)
     RK = ctx.rule("C06/every-block-has-a-waker", "for every library thread class: its stop() reaches, on every path consistent with the state in which the thread can block there, the waker of every untimed blocking site reachable from its run(), after the stop flag is set", floor=4)
